@@ -28,7 +28,7 @@ PROPS = {
     'C01': dict(spec_mods=['SsoSpec.C01'], engines=['proxyflow', 'sfwrap']),
     'C02': dict(spec_mods=['SsoSpec.C02'], engines=['aead']),
     'C03': dict(spec_mods=['SsoSpec.C03'], engines=['forward', 'proxyflow']),
-    'C04': dict(spec_mods=['SsoSpec.C04'], engines=['proxyflow', 'sfwrap']),
+    'C04': dict(spec_mods=['SsoSpec.C04', 'SsoSpec.C04History'], engines=['proxyflow', 'sfwrap']),
     'C05': dict(spec_mods=['SsoSpec.C05'], engines=['proxyflow']),
     'C06': dict(spec_mods=['SsoSpec.C06'], engines=['proxyflow', 'sfwrap', 'system']),
     'C07': dict(spec_mods=['SsoSpec.C07'], engines=['authflow', 'system']),
